@@ -8,16 +8,25 @@ LEAN_PROPS = ["FcpptProofs.Props.C08"]
 HARNESS = {"src": "harness/c08.cpp"}
 TIE = ("hand-written model (FcpptModel/Model/C08.lean) + differential correspondence against the real grid templates, "
        "instantiated for N in {1,2,3} with std::size_t (u) and long (s) positions and object<long,N>")
-RULE = ("digest ops enumerate a sub-domain on both sides: offs/ats (all positions in a margin of 2 around the grid), ranges (all sup in a "
+RULE = ("digest ops enumerate a sub-domain on both sides: offs/ats (all positions in a margin of 3 around the grid), ranges (all sup in a "
         "window for one min), nexts (all current positions in a window for one (min,sup)), refsubs/clamps (all signed positions from -1 "
-        "to extent+1); exhaustive over N in {1,2,3} and all sizes with extents 0..4 (thorough; quick reduces N=3 windows, see batch notes); "
-        "single ops (mk, mkc, all, refall, fill, map, resize, apply) over all sizes; random larger sizes (extents to 9) sampled. "
+        "to extent+1), interps (all integral parts with every neighbour in range x all quarter fractions); exhaustive over N in {1,2,3} and all "
+        "sizes with extents 0..4 in both tiers (thorough: refsubs with margin 2, histories of 3 calls on every configuration, more sampled ops); "
+        "single ops (mk, mkc, all, refall, fill, out, map, resize, apply, rows, cmp) over all sizes / pairs of sizes; regs = every legal history of "
+        "<= 3 special-member calls over three objects; random larger sizes (extents to 9) sampled. The harness additionally demands (result line "
+        "replaced by a *-mismatch token): const = mutable ranges / at_optional, lvalue = rvalue overloads on a cell type with a visible move "
+        "(each source cell moved exactly once, lvalue sources untouched), pos_range::size() = range_size, iterator protocol (post-increment, "
+        "copies, equality), call counts / call order of the user functions, same-object operands. "
         "weight = number of enumerated inputs of an op; an op is non-trivial unless it visits/produces no cell (n=0 / cells=-).")
 ASSUMPTIONS = [
-    "no wrap-around: std::size_t / long arithmetic is modelled by Int (all exercised quantities are far below 2^31)",
+    "integers: the std::size_t instantiation of offset / contents is modelled modulo 2^64 (offsetW, contentsW; offsetW_exact: no visible "
+    "wrap for in-range positions of a grid whose content is representable); everything else uses Int — next_stays_within shows the iteration "
+    "never leaves [min, sup], so its increments cannot overflow; range_dim / contents of the long instantiation are exercised without overflow only",
     "std::vector<long> is a List; vector::operator[] outside [0,size()) is Fault.oob (witnessed by _GLIBCXX_ASSERTIONS / ASan)",
     "positions/dims/min/sup of static size N are lists of length N, index 0 = x",
-    "the carry fold of next_position is modelled by structural recursion over the indices 0..N-2 (same tests in the same order)",
+    "a moved-from grid is observed only through size() (the standard leaves the moved-from vector unspecified after move assignment)",
+    "interpolate: the decomposition of the floating-point position into integral part (float_to_int, position not negative) and fractional part "
+    "(fmod(x, 1)) is an input of the model; the harness uses positions fl + q/4, exact in binary floating point",
 ]
 TRUSTED = ["harness/c08.cpp and the digest/line protocol (vh.hpp, Proto.lean)",
            "g++ 12 + ASan/UBSan + libstdc++ assertions as witness for memory safety of the instantiations"]
@@ -52,6 +61,10 @@ def count(lo, hi):
 
 
 def nontrivial(op, result):
+    if op.startswith("cmp ") or op.startswith("regs "):
+        return result != "bad-op"
+    if op.startswith("out ") or op.startswith("interp"):
+        return result != "bad-op"
     return " n=0 " not in result and not result.endswith("cells=-") and result != "bad-op"
 
 
@@ -74,6 +87,9 @@ def weight(op):
     if k == "clamps":
         d, m = P(t[1]), int(t[2])
         return count([-m] * len(d), [x + m + 1 for x in d])
+    if k == "interps":
+        d = P(t[1])
+        return count([0] * len(d), [x - 1 for x in d]) * 4 ** len(d)
     return 1
 
 
@@ -98,6 +114,10 @@ def refine(op):
     if k == "clamps":
         d, m = P(t[1]), int(t[2])
         return [f"clamp {t[1]} {L(p)}" for p in tuples([-m] * len(d), [x + m + 1 for x in d])]
+    if k == "interps":
+        d = P(t[1])
+        return [f"interp {t[1]} {t[2]} {L(fl)} {L(q)}" for fl in tuples([0] * len(d), [x - 1 for x in d])
+                for q in tuples([0] * len(d), [4] * len(d))]
     return None
 
 
@@ -106,16 +126,90 @@ def rdims(r, n, hi=9):
     return [r.choice([0, 1, 1, 2, 3, 4, 5, r.range(0, hi)]) for _ in range(n)]
 
 
+REG_KINDS = ["cc", "mc", "ca", "ma", "sm", "sf"]
+
+
+def reg_apply(moved, op):
+    """the legality rule of a special-member call (which objects are moved-from); returns the new flags or None"""
+    m = list(moved)
+    if op[:2] == "dc":
+        m[int(op[2])] = False
+        return m
+    k, d, s = op[:2], int(op[2]), int(op[3])
+    if k in ("cc", "mc") and d == s:
+        return None
+    if k in ("cc", "ca"):
+        if m[s]:
+            return None
+        m[d] = False
+    elif k == "mc" or (k == "ma" and d != s):
+        if m[s]:
+            return None
+        m[d], m[s] = False, True
+    elif k in ("sm", "sf"):
+        m[d], m[s] = m[s], m[d]
+    return m
+
+
+REG_OPS = [f"{k}{d}{s}" for k in REG_KINDS for d in range(3) for s in range(3)] + [f"dc{d}" for d in range(3)]
+
+
+def reg_programs(length):
+    """all legal histories of exactly `length` special-member calls over three objects"""
+    def go(prefix, moved, n):
+        if n == 0:
+            yield prefix
+            return
+        for op in REG_OPS:
+            m = reg_apply(moved, op)
+            if m is not None:
+                yield from go(prefix + [op], m, n - 1)
+    yield from go([], [False] * 3, length)
+
+
+def cmp_cells(n):
+    """cell lists of length n that differ from 1..n at the first / a middle / the last cell by +-1, and 1..n itself"""
+    base = list(range(1, n + 1))
+    out = [base]
+    for j in sorted({0, n // 2, n - 1} & set(range(n))):
+        for dlt in (-1, 1):
+            c = list(base)
+            c[j] += dlt
+            out.append(c)
+    if n >= 2:
+        # two differences in opposite directions (the first one decides, not the last) and a transposition
+        for a, b in ((1, -1), (-1, 1)):
+            c = list(base)
+            c[0] += a
+            c[-1] += b
+            out.append(c)
+        out.append([base[-1]] + base[1:-1] + [base[0]])
+    return out
+
+
 def batches(rng, tier):
     thorough = tier == "thorough"
+    wide = True  # the cheap batches run their widest windows in both tiers (quick has the time)
     alld = {n: dims(n) for n in (1, 2, 3)}
     everyd = alld[1] + alld[2] + alld[3]
 
-    bigd = (dims(1, range(0, 7)) + dims(2, range(0, 7))) if thorough else []
-    mg = 3 if thorough else 2
+    bigd = (dims(1, range(0, 7)) + dims(2, range(0, 7))) if wide else []
+    mg = 3 if wide else 2
     # ---- offset / in_range_dim / contents: every size, every position in a margin, both instantiations
     ops = [f"offs {t} {L(d)} {mg}" for t in "us" for d in everyd + bigd]
-    yield Batch("offset-all-sizes", ops, exhaustive=True, note=f"offset, in_range_dim, contents: all sizes 0..4^N (thorough: also 0..6 for N<=2), all positions with margin {mg} (signed: also below 0)")
+    yield Batch("offset-all-sizes", ops, exhaustive=True, note=f"offset, in_range_dim, contents: all sizes 0..4^N and 0..6 for N<=2, all positions with margin {mg} (signed: also below 0)")
+
+    # ---- std::size_t wrap-around: extents and positions around 2^16, 2^31, 2^32, 2^62, 2^63 (model: arithmetic mod 2^64)
+    big = [1, 2, 3, 65536, 2 ** 31, 2 ** 32 - 1, 2 ** 32, 2 ** 32 + 1, 2 ** 62, 2 ** 63 - 1]
+    ops = []
+    for n in (1, 2, 3):
+        for d in itertools.product(big, repeat=n):
+            d = list(d)
+            for p in ([x - 1 for x in d], [1] * n, [min(x, 2 ** 20 + 3) for x in d], d):
+                ops.append(f"off u {L(d)} {L(p)}")
+    yield Batch("offset-unsigned-wrap", ops, exhaustive=True,
+                note="offset / contents / in_range_dim of the std::size_t instantiation with extents in {1,2,3,2^16,2^31,2^32-1,2^32,2^32+1,2^62,2^63-1}^N: "
+                     "products beyond 2^64 wrap, the model computes modulo 2^64 (offsetW / contentsW)")
 
     # ---- at_optional / in_range: every size, every position in a margin
     ops = [f"ats {L(d)} {i % 3} {mg}" for i, d in enumerate(everyd + bigd)]
@@ -125,52 +219,62 @@ def batches(rng, tier):
     ops = []
     for i, d in enumerate(everyd + bigd):
         s = L(d)
-        ops += [f"mk {s} {i % 7}", f"mkc {s} {i % 5 - 2}", f"all {s}", f"refall {s} {i % 4}", f"fill {s} {-i} {i % 6}",
+        ops += [f"mk {s} {i % 7}", f"mkc {s} {i % 5 - 2}", f"all {s}", f"refall {s} {i % 4}", f"fill {s} {-i} {i % 6}", f"out {s} {i % 3}",
                 f"map {s} {i % 3} {i % 5 - 2} {i % 7 - 3}", f"apply {s} 1 {s} 2", f"apply {s} 1 {s} 2 {s} 3"]
-    yield Batch("whole-grid-all-sizes", ops, exhaustive=True, note="function/value constructor, make_pos_range, make_pos_ref_(c)range, fill, map, apply(2,3 equal sizes) on every size 0..4^N")
+        ops += [f"fillself {s} {i % 5} {mode}" for mode in range(5)]
+    yield Batch("whole-grid-all-sizes", ops, exhaustive=True, note="function/value constructor, make_pos_range, make_pos_ref_(c)range, fill (also with a function reading the grid's own first / last / previous / next / current cell), operator<<, map, apply(2,3 equal sizes) on every size 0..4^N and 0..6^N for N<=2")
 
     # ---- pos_range: every (min, sup) in a window
     ops = []
     for n in (1, 2, 3):
         if n < 3:
-            wu, ws = ((0, 8), (-3, 5)) if thorough else ((0, 6), (-2, 4))
+            wu, ws = ((0, 8), (-3, 5)) if wide else ((0, 6), (-2, 4))
         else:
-            wu, ws = ((0, 6), (-3, 3)) if thorough else ((0, 5), (-2, 3))
+            wu, ws = ((0, 6), (-3, 3)) if wide else ((0, 5), (-2, 3))
         for t, (lo, hi) in (("u", wu), ("s", ws)):
             ops += [f"ranges {t} {L(mn)} {lo} {hi}" for mn in tuples([lo] * n, [hi + 1] * n)]
     yield Batch("pos-range-all-min-sup", ops, exhaustive=True,
                 note="min_less_sup, range_dim, range_size = size(), end_position, visited positions for every (min,sup) in the window "
-                     "(quick: N<=2 u 0..6, s -2..4, N=3 u 0..5, s -2..3; thorough: N<=2 u 0..8, s -3..5, N=3 u 0..6, s -3..3) - empty and inverted ranges included")
+                     "(N<=2 u 0..8, s -3..5, N=3 u 0..6, s -3..3) - empty and inverted ranges included; iterator protocol and accessors demanded")
+
+    # ---- small boxes far from the origin (coordinates around 2^31, 2^32, 2^62; signed also around -2^62)
+    ops = []
+    far_u = [2 ** 31 - 1, 2 ** 32 - 1, 2 ** 32, 2 ** 62, 2 ** 63 - 4]
+    far_s = far_u + [-2 ** 31, -2 ** 32 - 1, -2 ** 62]
+    for n in (1, 2, 3):
+        for t, far in (("u", far_u), ("s", far_s)):
+            for base in itertools.product(far, repeat=n):
+                if n == 3 and len(set(base)) == 3:
+                    continue
+                for ext in ([2] * n, [1, 3, 2][:n], [2, 0, 1][:n]):
+                    mn = list(base)
+                    sp = [b + e for b, e in zip(base, ext)]
+                    ops.append(f"range {t} {L(mn)} {L(sp)}")
+                    ops.append(f"next {t} {L([x - 1 for x in sp])} {L(mn)} {L(sp)}")
+    yield Batch("ranges-far-from-origin", ops, exhaustive=True,
+                note="pos_range / next_position on small boxes whose coordinates are around 2^31, 2^32, 2^62, 2^63-4 (long: also negative): "
+                     "no intermediate of the iteration leaves [min, sup] (next_stays_within), so nothing wraps or overflows")
 
     # ---- next_position on arbitrary current positions (also outside the range: the carry test at every index)
     ops = []
     for n in (1, 2, 3):
-        w = (5 if thorough else 4) if n < 3 else (4 if thorough else 3)
+        w = (5 if wide else 4) if n < 3 else (4 if wide else 3)
         for t, lo in (("u", 0), ("s", -1)):
             hi = lo + w
             prs = [(mn, sp) for mn in tuples([lo] * n, [hi + 1] * n) for sp in tuples([lo] * n, [hi + 1] * n)]
             ops += [f"nexts {t} {L(mn)} {L(sp)} {lo} {hi}" for mn, sp in prs]
-    yield Batch("next-position-window", ops, exhaustive=True, note="next_position for every current/min/sup in a window (quick: 5 values per coordinate for N<=2, 4 for N=3; thorough: 6 and 5)")
+    yield Batch("next-position-window", ops, exhaustive=True, note="next_position (model: the literal fold nextFold) for every current/min/sup in a window (6 values per coordinate for N<=2, 5 for N=3), current also outside the box")
 
     # ---- sub-ranges of a grid through the clamp helpers: every size, every signed (min, sup) from -1 to extent+1
     ops = []
     for n in (1, 2, 3):
-        ds = alld[n] if (n < 3 or thorough) else dims(3, [0, 1, 2, 3])
-        m = 2 if (thorough and n < 3) else 1
+        ds = alld[n]
+        m = 2 if thorough else 1
         for i, d in enumerate(ds):
             ops += [f"refsubs {L(d)} {i % 3} {L(mn)} {m}" for mn in tuples([-m] * n, [x + m + 1 for x in d])]
     yield Batch("sub-range-clamped-all", ops, exhaustive=True,
                 note="pos_ref_range(grid, clamped_min smin, clamped_sup_signed ssup) for all signed smin, ssup in [-1, extent+1]^N on every size "
-                     "(quick: N=3 only extents 0..3, the rest of N=3 is sampled below; thorough: margin 2 for N<=2)")
-    if not thorough:
-        r = rng.fork("refsub3")
-        ops = []
-        for _ in range(500):
-            d = [r.range(0, 4) for _ in range(3)]
-            mn = [r.range(-1, x + 1) for x in d]
-            ops.append(f"refsubs {L(d)} {r.below(3)} {L(mn)} 1")
-        yield Batch("sub-range-clamped-n3-sampled", ops, note="N=3 sizes with extents 0..4, random smin, all ssup")
-
+                     "(thorough: margin 2): positions and cells read, const = mutable range, and the cells after writing through the references")
     # ---- clamp helpers on every size
     ops = [f"clamps {L(d)} {mg}" for d in everyd + bigd]
     yield Batch("clamp-all-sizes", ops, exhaustive=True, note=f"clamped_min, clamped_sup_signed, clamped_sup for all signed positions in [-{mg}, extent+{mg}]^N")
@@ -187,6 +291,13 @@ def batches(rng, tier):
     for n in (1, 2):
         ops += [f"apply {L(a)} 1 {L(b)} 2" for a in alld[n] for b in alld[n]]
     yield Batch("apply-all-pairs-n12", ops, exhaustive=True, note="apply on two grids of every pair of sizes (result empty unless equal)")
+    ops = []
+    for n in (1, 2):
+        small = dims(n, [0, 1, 2])
+        ops += [f"apply {L(a)} 1 {L(b)} 2 {L(c)} 3" for a in small for b in small for c in small]
+    yield Batch("apply-all-triples-small", ops, exhaustive=True,
+                note="apply on three grids, every triple of sizes with extents 0..2 (N<=2): only the first / only the last / only the middle "
+                     "differs, two differ, all equal; with lvalue and mixed rvalue arguments of a cell type whose move is visible")
     r = rng.fork("apply")
     ops = []
     for _ in range(6000 if thorough else 1000):
@@ -208,6 +319,74 @@ def batches(rng, tier):
             ops.append(f"apply {L(a)} {r.below(4)} {L(other())} {r.below(4)} {L(other())} {r.below(4)}")
     yield Batch("apply-sampled", ops, note="2 and 3 grids, sizes equal / differing in one extent / permuted")
 
+    # ---- interpolate: every size with extents 2..4 (N<=2: 2..6), every integral part with all neighbours in range, quarters
+    ops = []
+    for n in (1, 2, 3):
+        exts = [2, 3, 4, 5, 6] if (wide and n < 3) else [2, 3, 4]
+        ops += [f"interps {L(d)} {i % 4}" for i, d in enumerate(dims(n, exts))]
+    yield Batch("interpolate-all", ops, exhaustive=True,
+                note="interpolate with an argument-recording interpolator at every position fl + q/4, 0 <= fl_i <= extent-2, q in {0,1,2,3}^N, "
+                     "every size with extents 2..4 (2..6 for N<=2)")
+
+    # ---- static_row constructor (two-dimensional only): every row length and row count 1..4
+    ops = [f"rows {w} {h} {k}" for w in range(1, 5) for h in range(1, 5) for k in (0, 3)]
+    yield Batch("static-rows-all", ops, exhaustive=True, note="object(static_row...) for every row length and number of rows in 1..4 (non-square: the transposed size is visible)")
+
+    # ---- special members: copy/move constructor, copy/move assignment (also self), member and free swap (also self)
+    regcfg = [
+        "2 1 1 2 3 3", "0 1 2 2 2 3",
+        "2,1 1 1,2 2 0,3 3", "2,2 1 1,4 2 4,1 3",
+        "1,2,1 1 2,1,1 2 1,1,2 3",
+    ]
+    ops = []
+    for cfg in regcfg:
+        ops.append(f"regs {cfg} -")
+        for ln in (1, 2):
+            ops += [f"regs {cfg} {'.'.join(pr)}" for pr in reg_programs(ln)]
+    yield Batch("special-members-all-histories-2", ops, exhaustive=True,
+                note="three objects of different sizes (same content, different shape included), every legal history of <= 2 calls out of "
+                     "default ctor, copy ctor, move ctor, copy assignment, move assignment, member swap, free swap over all (dst, src) incl. dst = src")
+    if wide:
+        ops = [f"regs {cfg} {'.'.join(pr)}" for cfg in (regcfg if thorough else regcfg[2:3]) for pr in reg_programs(3)]
+        yield Batch("special-members-all-histories-3", ops, exhaustive=True,
+                    note="every legal history of exactly 3 calls on the 2-D configuration (thorough: on all five configurations)")
+    r = rng.fork("regs")
+    ops = []
+    for _ in range(8000 if thorough else 1500):
+        cfg = r.choice(regcfg)
+        moved, pr = [False] * 3, []
+        for _ in range(r.range(3, 8)):
+            for _try in range(20):
+                op = r.choice(REG_OPS)
+                m = reg_apply(moved, op)
+                if m is not None:
+                    moved = m
+                    pr.append(op)
+                    break
+        ops.append(f"regs {cfg} {'.'.join(pr)}")
+    yield Batch("special-members-sampled", ops, note="random legal histories of 3..8 special-member calls")
+
+    # ---- comparison: every pair of sizes, cells equal / differing at the first, a middle, the last cell
+    ops = []
+    for n, exts in ((1, [0, 1, 2, 3, 4]), (2, [0, 1, 2, 3]), (3, [0, 1, 2])):
+        ds = dims(n, exts)
+        for a in ds:
+            ca = list(range(1, count([0] * n, a) + 1))
+            for b in ds:
+                for cb in cmp_cells(count([0] * n, b)):
+                    ops.append(f"cmp {L(a)} {L(ca) if ca else '-'} {L(b)} {L(cb) if cb else '-'}")
+    # equal sizes: every pair of cell lists over a small alphabet
+    for d in ([2], [3], [2, 1], [1, 2], [3, 1], [1, 3], [2, 2], [1, 2, 1], [2, 1, 2]):
+        n = count([0] * len(d), d)
+        alpha = [0, 1, 2] if n <= 3 else [0, 1]
+        lists = [list(t) for t in itertools.product(alpha, repeat=n)]
+        ops += [f"cmp {L(d)} {L(x)} {L(d)} {L(y)}" for x in lists for y in lists]
+    yield Batch("comparison-all-size-pairs", ops, exhaustive=True,
+                note="== != < > <= >= for every pair of sizes (N=1: extents 0..4, N=2: 0..3, N=3: 0..2), second operand's cells equal to "
+                     "1..n or differing by +-1 at the first / middle / last cell, at the first and the last in opposite directions, or "
+                     "first and last exchanged: same flattened cells with different shape, empty grids of different sizes, one cell list a prefix of the "
+                     "other; for nine equal-size shapes with <= 4 cells every pair of cell lists over {0,1,2} ({0,1} for 4 cells)")
+
     # ---- larger sizes, sampled
     r = rng.fork("large")
     ops = []
@@ -215,8 +394,34 @@ def batches(rng, tier):
         n = r.choice([1, 2, 2, 3, 3])
         d = rdims(r, n)
         s = L(d)
-        k = r.below(12)
-        if k == 0:
+        k = r.below(16)
+        if k == 12:
+            ops.append(f"out {s} {r.below(9)}")
+        elif k == 13:
+            d2 = [max(2, x) for x in d]
+            fl = [r.range(0, x - 2) for x in d2]
+            ops.append(f"interp {L(d2)} {r.below(9)} {L(fl)} {L([r.below(4) for _ in d2])}")
+        elif k == 14:
+            d1 = [r.range(0, 5) for _ in range(n)]
+            d2 = list(d1) if r.chance(2, 3) else [r.range(0, 5) for _ in range(n)]
+            c1 = [r.range(-2, 2) for _ in range(count([0] * n, d1))]
+            c2 = [r.range(-2, 2) for _ in range(count([0] * n, d2))]
+            if len(c1) == len(c2) and r.chance(1, 2):
+                c2 = list(c1)
+                if c2 and r.chance(2, 3):
+                    c2[r.below(len(c2))] += r.choice([-1, 1])
+            ops.append(f"cmp {L(d1)} {L(c1) if c1 else '-'} {L(d2)} {L(c2) if c2 else '-'}")
+        elif k == 15:
+            ds = [[r.range(0, 5) for _ in range(n)] for _ in range(3)]
+            moved, pr = [False] * 3, []
+            for _ in range(r.range(1, 6)):
+                op = r.choice(REG_OPS)
+                m = reg_apply(moved, op)
+                if m is not None:
+                    moved = m
+                    pr.append(op)
+            ops.append(f"regs {L(ds[0])} 1 {L(ds[1])} 2 {L(ds[2])} 3 {'.'.join(pr) if pr else '-'}")
+        elif k == 0:
             ops.append(f"offs {r.choice('us')} {s} 1")
         elif k == 1:
             ops.append(f"ats {s} {r.below(5)} 1")
@@ -249,18 +454,22 @@ def batches(rng, tier):
             ops.append(f"clamps {s} 1")
         else:
             ops.append(f"apply {s} 1 {s} 2")
-    yield Batch("larger-sizes-sampled", ops, note="extents up to 9, every op kind, ~1/12 each (range and refsub 2/12)")
+    yield Batch("larger-sizes-sampled", ops, note="extents up to 9 (cmp, regs: up to 5), every op kind, ~1/16 each (range and refsub 2/16)")
 
 
 MANIFEST = {
     "level_text": ("Machine-checked proof (Lean 4) over an executable model that mirrors the grid templates (stride-accumulating offset fold, "
-                   "next_position carry fold, end_position sentinel, iterator loop, cell-wise constructors): for every static size N >= 1 and "
-                   "every grid size, offset is a bijection between the in-range positions and [0, content); the position range of (min, sup) "
-                   "terminates and visits exactly the box min <= p < sup once each in row-major order, size() many (none iff some min_i >= sup_i); "
-                   "the whole-grid range is in storage order; at_optional, resize, map, apply, fill and the clamp helpers are characterised cell by "
-                   "cell. The model is tied to the code by a differential correspondence that is exhaustive for N in {1,2,3}, extents 0..4."),
+                   "next_position carry fold — also in its literal indexed form, proved equal —, end_position sentinel, iterator loop, cell-wise "
+                   "constructors incl. static rows, special members, comparison, operator<<, interpolate): for every static size N >= 1 and "
+                   "every grid size, offset is a bijection between the in-range positions and [0, content) (also computed modulo 2^64); the position "
+                   "range of (min, sup) terminates and visits exactly the box min <= p < sup once each in row-major order, size() many (none iff "
+                   "some min_i >= sup_i), never leaving [min, sup]; the whole-grid range is in storage order; at_optional, resize, map, apply, fill, "
+                   "writes through sub-ranges and the clamp helpers are characterised cell by cell; copy/move/swap histories act on whole grid "
+                   "values; == is equality of size and cells, < a strict total order; operator<< prints the nested row-major form; interpolate reads "
+                   "exactly the 2^N neighbouring cells. The model is tied to the code by a differential correspondence that is exhaustive for "
+                   "N in {1,2,3}, extents 0..4."),
     "level_note": ("Trusted: Lean kernel + propext/Classical.choice/Quot.sound; fidelity of the hand-written model outside the exercised inputs; "
-                   "Int models size_t/long without wrap-around; harness and digest protocol. No sorry/axiom/native_decide."),
+                   "Int models long without overflow (size_t products modulo 2^64); harness and digest protocol. No sorry/axiom/native_decide."),
     "technique": "Lean 4 proof over hand-written executable model + exhaustive differential correspondence (ASan/UBSan harness)",
     "design_ref": "DESIGN.md §5 C08",
 }
